@@ -41,6 +41,8 @@ func init() {
 			{Name: "crc-over-header", File: "consensus/wal.go", Old: "actualCRC := crc32.Checksum(payload, crc32c)", New: "actualCRC := crc32.Checksum(payload, crc32.IEEETable)", Desc: "reader checks with a different CRC table"},
 			{Name: "reader-len-offset", File: "consensus/wal.go", Old: "payloadLen := binary.BigEndian.Uint32(header[4:headerLen])", New: "payloadLen := binary.BigEndian.Uint32(header[0:4])", Desc: "reader takes the length from the CRC slot"},
 			{Name: "truncate-wrong-length", File: "consensus/wal.go", Old: "os.Truncate(fileFor(w.id, idx), left)", New: "os.Truncate(fileFor(w.id, idx), w.validOffset)", Desc: "truncate to the global offset instead of the offset within the segment"},
+			{Name: "sizes-indexed-from-zero", File: "consensus/wal.go", Old: "fileSizes[i] = fileSizeFor[i+minIndex]", New: "fileSizes[i] = fileSizeFor[i]", Desc: "segment size table not offset by the head index (breaks repair after housekeeping trimmed the head)"},
+			{Name: "offset-incremental", File: "consensus/wal.go", Old: "\tcrc := binary.BigEndian.Uint32(header[0:4])", New: "\tw.validOffset += headerLen\n\tcrc := binary.BigEndian.Uint32(header[0:4])", Desc: "validOffset advanced by the header before the record verified"},
 			{Name: "consumer-breaks-on-torn", File: "consensus/consensus.go", Old: "\t\tbs, err := wr.ReadBytes()\n\t\tif IsEOF(err) {\n\t\t\tbreak\n\t\t} else if IsCorruptedWAL(err) || IsUnexpectedEOF(err) {\n\t\t\tcs.log.Warnf(\"applyRoundWAL", New: "\t\tbs, err := wr.ReadBytes()\n\t\tif IsEOF(err) || IsUnexpectedEOF(err) {\n\t\t\tbreak\n\t\t} else if IsCorruptedWAL(err) || IsUnexpectedEOF(err) {\n\t\t\tcs.log.Warnf(\"applyRoundWAL", Desc: "round WAL replay treats a torn record as clean EOF"},
 			{Name: "consumer-no-repair", File: "consensus/consensus.go", Old: "\t\t\tcs.log.Warnf(\"applyLockWAL: %+v\\n\", err)\n\t\t\terr := wr.CloseAndRepair()\n\t\t\tif err != nil {\n\t\t\t\treturn err\n\t\t\t}\n", New: "\t\t\tcs.log.Warnf(\"applyLockWAL: %+v\\n\", err)\n", Desc: "lock WAL replay logs corruption but does not repair"},
 		},
@@ -400,6 +402,70 @@ func runC03(c *Ctx) {
 		}
 		for _, rs := range successSites(rep) {
 			c.requireGuard("C03.repair-targets", "repair success", rs.pos(), rs.guards(), wSame("Close() == nil", `\.Close\(\)$`, `^nil$`))
+		}
+	}
+
+	// ---- walinfo: the size table CloseAndRepair walks is indexed from the head segment
+	if ri := c.mustFn(pkg, "", "readWALInfo"); ri != nil {
+		fields := map[string]ssa.Value{}
+		for _, st := range fieldStoresAny([]*ssa.Function{ri}, "walInfo") {
+			fields[fieldName(st.Addr.X.Type(), st.Addr.Field)] = st.Store.Val
+		}
+		head, tail, sizes := fields["headIdx"], fields["tailIdx"], fields["fileSizes"]
+		ms, isMS := sizes.(*ssa.MakeSlice)
+		if head == nil || tail == nil || !isMS {
+			c.undecided("C03.walinfo", "readWALInfo result", ri.Pos(), "walInfo literal with headIdx/tailIdx/fileSizes (make) not found")
+		} else {
+			// length = tail - head + 1 (or 0)
+			okLen := false
+			for _, fl := range flowsOf(ms.Len, nil) {
+				l := linOf(fl.Src)
+				if l.K == 1 && len(l.T) == 2 && l.T[render(tail)] == 1 && l.T[render(head)] == -1 {
+					okLen = true
+				}
+			}
+			c.check(okLen, "C03.walinfo", "fileSizes length", ms.Pos(), "tailIdx - headIdx + 1", "fileSizes length is "+render(ms.Len))
+			nFill := 0
+			for _, b := range ri.Blocks {
+				for _, in := range b.Instrs {
+					st, ok := in.(*ssa.Store)
+					if !ok {
+						continue
+					}
+					ia, ok := st.Addr.(*ssa.IndexAddr)
+					if !ok || ia.X != ssa.Value(ms) {
+						continue
+					}
+					nFill++
+					iphi, isPhi := ia.Index.(*ssa.Phi)
+					isCounter := false
+					if isPhi {
+						_, isCounter = counterIncrements(iphi, isZeroConst)
+					}
+					c.check(isCounter, "C03.walinfo", "fileSizes filled by a counted loop", st.Pos(), "i = 0; i++", "fileSizes index is "+render(ia.Index))
+					lk, isLookup := st.Val.(*ssa.Lookup)
+					if !isLookup {
+						c.violate("C03.walinfo", "fileSizes[i] source", st.Pos(), "not read from the per-index size map: "+render(st.Val))
+						continue
+					}
+					kl := linOf(lk.Index)
+					okKey := isPhi && kl.K == 0 && len(kl.T) == 2 && kl.T[render(head)] == 1 && kl.T[render(iphi)] == 1
+					c.check(okKey, "C03.walinfo", "fileSizes[i] = size of segment headIdx+i", st.Pos(), "key is i + headIdx", "fileSizes[i] is read with key "+kl.String()+", not i + headIdx ("+render(head)+")")
+					// the map is filled with (parsed index -> entry size)
+					okMap := false
+					for _, r := range *lk.X.Referrers() {
+						if mu, ok := r.(*ssa.MapUpdate); ok {
+							if strings.Contains(render(mu.Key), "strconv.ParseUint(") && strings.HasSuffix(render(mu.Value), ".Size()") {
+								okMap = true
+							}
+						}
+					}
+					c.check(okMap, "C03.walinfo", "size map keyed by parsed segment index", st.Pos(), "map[idx] = entry.Size()", "the size map is not filled with map[parsed index] = entry.Size()")
+				}
+			}
+			if nFill != 1 {
+				c.undecided("C03.walinfo", "fileSizes fill", ri.Pos(), fmt.Sprintf("expected one store into fileSizes, found %d", nFill))
+			}
 		}
 	}
 
